@@ -1153,6 +1153,10 @@ class Lexer:
         comment_depth = 1
 
         while True:
+            # Lines of a comment block can be indented, just like any other
+            # line statement.
+            self.accept(self.RE_WHITESPACE)
+
             if match := self.RE_TAG_NAME.match(self.source, self.pos):
                 tag_name = match.group()
                 self.pos += match.end() - match.start()
